@@ -42,9 +42,10 @@ def check_mutation(rep, algopy, rng, tier):
     for nm, op in sorted(ops.ops_for(PID).items()):
         for _ in range(per_op):
             case = op.gen(rng, Dmax=5, Pmax=2)
-            inputs = [numpy.array(x, dtype=float) for x in case['inputs']]
+            layout = ['C', 'F', 'T'][rep.evaluations % 3]              # C-contiguous, Fortran-ordered, transposed trailing axes
+            inputs = [lib.relayout(numpy.array(x, dtype=float), layout) for x in case['inputs']]
             before = [snap(a) for a in inputs]
-            rep.count('mutation:op', nm)
+            rep.count('mutation:op', nm); rep.count('mutation:layout', layout)
             rep.case(('mut', nm, json.dumps(case, sort_keys=True, default=str)), True,
                      sample=dict(check='mutation', op=nm, shapes=[list(a.shape) for a in inputs]))
             try:
@@ -210,6 +211,108 @@ def check_tracer(rep, algopy, rng, tier):
                 rep.notes.append('tracer program %s raised %r (decided by C03/C05)' % (name, e))
 
 
+def check_pullback_rules(rep, algopy, rng, tier):
+    """the reverse-mode rules called directly (UTPM.pb_*) with user-owned objects: seed, arguments and forward value are byte-identical
+    afterwards, and a second call with the same objects gives the same adjoints.  Non-dyadic values (temporaries like (x + c) - c do not
+    round-trip there)."""
+    import algopy.special as sp
+    UTPM = algopy.UTPM
+    n = 3 if tier == 'quick' else 30
+
+    def rnd(D, P, shp, lo=0.3, hi=1.7):
+        return numpy.array([lo + (hi - lo) * rng.random() for _ in range(D * P * int(numpy.prod(shp, dtype=int)))]).reshape((D, P) + tuple(shp))
+
+    unary = [(nm, getattr(algopy, nm)) for nm in ('sqrt', 'exp', 'expm1', 'log', 'log1p', 'sin', 'cos', 'tan', 'reciprocal', 'negative', 'square', 'absolute')]
+    unary += [(nm, getattr(sp, nm)) for nm in ('erf', 'erfi', 'dawsn', 'logit', 'expit', 'gammaln', 'psi')]
+    cases = []
+    for _ in range(n):
+        D = rng.randint(2, 4); P = rng.randint(1, 2)
+        shp = rng.choice([(), (3,), (2, 2)])
+        for nm, f in unary:
+            x = UTPM(rnd(D, P, shp, 0.2, 0.8))
+            cases.append(('pb_' + nm, [x], lambda a, f=f: f(a), lambda zb, a, z, nm=nm: getattr(UTPM, 'pb_' + nm)(zb, a[0], z, out=(a[0].zeros_like(),))))
+        for nm, op in [('add', lambda a, b: a + b), ('sub', lambda a, b: a - b), ('mul', lambda a, b: a * b), ('truediv', lambda a, b: a / b)]:
+            for yshp in (shp, ()):
+                x = UTPM(rnd(D, P, shp)); y = UTPM(rnd(D, P, yshp))
+                cases.append(('pb_' + nm, [x, y], lambda a, b, op=op: op(a, b),
+                              lambda zb, a, z, nm=nm: getattr(UTPM, 'pb_' + nm)(zb, a[0], a[1], z, out=(a[0].zeros_like(), a[1].zeros_like()))))
+        for r in (2, 3, 0.5, -1.5):
+            x = UTPM(rnd(D, P, shp))
+            cases.append(('pb_pow', [x], lambda a, r=r: a ** r, lambda zb, a, z, r=r: UTPM.pb_pow(zb, a[0], r, z, out=(a[0].zeros_like(),))))
+        A = UTPM(rnd(D, P, (3, 3)) + 3 * numpy.eye(3)[None, None] * (numpy.arange(D) == 0)[:, None, None, None]); B = UTPM(rnd(D, P, (3, 2))); v = UTPM(rnd(D, P, (3,)))
+        cases.append(('pb_dot', [A, B], lambda a, b: algopy.dot(a, b), lambda zb, a, z: UTPM.pb_dot(zb, a[0], a[1], z, out=(a[0].zeros_like(), a[1].zeros_like()))))
+        cases.append(('pb_dot(matrix,vector)', [A, v], lambda a, b: algopy.dot(a, b), lambda zb, a, z: UTPM.pb_dot(zb, a[0], a[1], z, out=(a[0].zeros_like(), a[1].zeros_like()))))
+        cases.append(('pb_outer', [v, UTPM(rnd(D, P, (2,)))], lambda a, b: algopy.outer(a, b), lambda zb, a, z: UTPM.pb_outer(zb, a[0], a[1], z, out=(a[0].zeros_like(), a[1].zeros_like()))))
+        cases.append(('pb_inv', [A], lambda a: algopy.inv(a), lambda zb, a, z: UTPM.pb_inv(zb, a[0], z, out=(a[0].zeros_like(),))))
+        cases.append(('pb_solve', [A, B], lambda a, b: algopy.solve(a, b), lambda zb, a, z: UTPM.pb_solve(zb, a[0], a[1], z, out=(a[0].zeros_like(), a[1].zeros_like()))))
+        cases.append(('pb_det', [A], lambda a: algopy.det(a), lambda zb, a, z: UTPM.pb_det(zb, a[0], z, out=(a[0].zeros_like(),))))
+        cases.append(('pb_logdet', [A], lambda a: algopy.logdet(a), lambda zb, a, z: UTPM.pb_logdet(zb, a[0], z, out=(a[0].zeros_like(),))))
+        cases.append(('pb_trace', [A], lambda a: algopy.trace(a), lambda zb, a, z: UTPM.pb_trace(zb, a[0], z, out=(a[0].zeros_like(),))))
+        cases.append(('pb_transpose', [B], lambda a: a.T, lambda zb, a, z: UTPM.pb_transpose(zb, a[0], z, out=(a[0].zeros_like(),))))
+        cases.append(('pb_sum', [B], lambda a: algopy.sum(a), lambda zb, a, z: UTPM.pb_sum(zb, a[0], z, None, None, None, out=(a[0].zeros_like(),))))
+        cases.append(('pb_prod', [v], lambda a: algopy.prod(a), lambda zb, a, z: UTPM.pb_prod(zb, a[0], z, out=(a[0].zeros_like(),))))
+    for name, args, fwd, pb in cases:
+        rep.count('pullback rule', name)
+        rep.case(('pbrule', name, args[0].data.tobytes().hex()[:48], rng.random()), True, sample=dict(check='pullback rule called directly', rule=name))
+        try:
+            z = fwd(*args)
+            zbar = UTPM(rnd(z.data.shape[0], z.data.shape[1], z.data.shape[2:]))
+            objs = list(args) + [z, zbar]
+            before = [snap(o.data) for o in objs]
+            out1 = pb(zbar, args, z)
+            mid = [snap(o.data) for o in objs]
+            out2 = pb(zbar, args, z)
+        except Exception as e:
+            rep.notes.append('pullback rule %s raised %r (decided by C03)' % (name, e))
+            continue
+        who = ['argument %d' % i for i in range(len(args))] + ['the forward value', 'the seed']
+        changed = [w for w, b, m in zip(who, before, mid) if b != m]
+        if changed:
+            rep.violation('pbrule:mutates:' + name, 'UTPM.%s modifies %s of the caller' % (name, ', '.join(changed)), dict(kind='pbrule', rule=name))
+            continue
+        same = all(numpy.array_equal(numpy.asarray(a.data), numpy.asarray(b.data), equal_nan=True) for a, b in zip(_as_tuple(out1), _as_tuple(out2)))
+        if not same:
+            rep.violation('pbrule:second-call:' + name, 'UTPM.%s gives other adjoints when called a second time with the same objects' % name, dict(kind='pbrule', rule=name))
+
+
+def check_extractors(rep, algopy, rng, tier):
+    """the extract_* / init_* helpers of the forward drivers and the conversion helpers read their arguments only"""
+    UTPM = algopy.UTPM
+    for _ in range(10 if tier == 'quick' else 100):
+        N = rng.randint(1, 4)
+        x = numpy.array([0.3 + rng.random() for _ in range(N)]); v = numpy.array([rng.random() - 0.5 for _ in range(N)])
+        f = lambda z: algopy.sum(algopy.sin(z) * z) * z[0]
+        jobs = [('extract_jacobian', UTPM.init_jacobian(x), lambda y: UTPM.extract_jacobian(y)),
+                ('extract_jac_vec', UTPM.init_jac_vec(x, v), lambda y: UTPM.extract_jac_vec(y)),
+                ('extract_hessian', UTPM.init_hessian(x), lambda y: UTPM.extract_hessian(N, y)),
+                ('extract_hess_vec', UTPM.init_hess_vec(x, v), lambda y: UTPM.extract_hess_vec(N, y)),
+                ('extract_tensor', UTPM.init_tensor(2, x), lambda y: UTPM.extract_tensor(N, y, as_full_matrix=False))]
+        x0, v0 = snap(x), snap(v)
+        for name, seed, ex in jobs:
+            rep.count('extractor', name)
+            rep.case(('extractor', name, x.tobytes().hex()), True, sample=dict(check='extractor reads only', helper=name, N=N))
+            try:
+                y = f(seed)
+                b = snap(y.data)
+                r1 = numpy.array(ex(y), copy=True)
+                if snap(y.data) != b:
+                    rep.violation('extractor:mutates:' + name, 'UTPM.%s modifies the propagated polynomial it reads from' % name, dict(kind='extractor', helper=name, x=x.tolist(), v=v.tolist()))
+                    continue
+                r2 = numpy.asarray(ex(y))
+                if not numpy.array_equal(r1, r2, equal_nan=True):
+                    rep.violation('extractor:second-call:' + name, 'UTPM.%s gives another result when called a second time on the same polynomial' % name, dict(kind='extractor', helper=name))
+            except Exception as e:
+                rep.notes.append('extractor %s raised %r (decided by C09)' % (name, e))
+        if snap(x) != x0 or snap(v) != v0:
+            rep.violation('extractor:init-mutates', 'an init_* helper modified the point or direction it was given', dict(kind='extractor', x=x.tolist()))
+
+
+def _as_tuple(o):
+    if o is None:
+        return ()
+    return tuple(x for x in (o if isinstance(o, (tuple, list)) else (o,)) if hasattr(x, 'data'))
+
+
 def _buffer_prog(algopy, x):
     y = algopy.zeros(2, dtype=x)
     y[0] = x[0] * x[1]
@@ -232,6 +335,8 @@ def main(tier, seed):
     check_alias(rep, algopy, rng, tier)
     check_store_model(rep, algopy, rng, tier)
     check_tracer(rep, algopy, rng, tier)
+    check_pullback_rules(rep, algopy, rng, tier)
+    check_extractors(rep, algopy, rng, tier)
     return rep.finish()
 
 
